@@ -34,7 +34,9 @@ def cases(draw, exclude: frozenset = frozenset()):
 	rnd = draw(st.randoms(use_true_random=False))
 	# module paths in a string-prefix relation (hm / hmb / hm1 ...): a registry keyed by path must not confuse them
 	na, nb, nc = rnd.choice(NAME_SETS)
-	two = pygen.gen_two_modules(rnd, set(exclude), na, nb)
+	# C is a second importer of A in half of the pools (else independent): what one importer resolves first (e.g. an instantiation of A's generic class) must not show in the other
+	sibling = rnd.random() < 0.5
+	two = pygen.gen_two_modules(rnd, set(exclude), na, nb, p_generic=0.7, name_c=nc if sibling else None)
 	# variant 0 certainly emits a view dependency (<functional>), variant 1 certainly does not: per-transpile state that leaks shows up
 	m0 = pygen.gen_program(rnd, set(exclude), size=1)['source']
 	if 'from collections.abc import Callable' not in m0:
@@ -42,14 +44,14 @@ def cases(draw, exclude: frozenset = frozenset()):
 	m0 += '\ndef zz_dep(a_z: int) -> int:\n\tfn_z: Callable[[int], int] = lambda p_z: p_z + 1\n\treturn fn_z(a_z)\n'
 	m1 = pygen.gen_program(rnd, set(exclude) | {'lambda'}, size=1)['source']
 	mains = [m0, m1]
-	third = pygen.gen_program(rnd, set(exclude), size=1)['source']  # module C: independent of A and B
+	third = two['c'] if sibling else pygen.gen_program(rnd, set(exclude), size=1)['source']  # module C: independent of A and B unless it is a sibling importer
 	# a __main__ variant that imports module A of *this* pool: reuse B's text of a second generation over the same A is not possible, so use B itself as a main variant
 	mains.append(two['b'])
 	ops = []
 	for _ in range(rnd.randint(8, 25)):
 		k = rnd.choice(OPS)
 		ops.append([k, rnd.choice(['hma', 'hmb', 'hmc']), rnd.randint(0, 2), rnd.randint(0, 10 ** 6)])
-	return {'a': two['a'], 'b': two['b'], 'c': third, 'names': [na, nb, nc], 'mains': mains, 'ops': ops}
+	return {'a': two['a'], 'b': two['b'], 'c': third, 'c_imports_a': sibling, 'names': [na, nb, nc], 'mains': mains, 'ops': ops}
 
 
 def reference(scratch: str, proj: str, mains: list[str], hashseed: str, modules: list[str]) -> dict | None:
@@ -128,7 +130,7 @@ def judge(scratch: str, case: dict, hashseeds: tuple = ('0',)) -> tuple[list[tup
 			nonlocal last_transpiled
 			text = a.transpiler.transpile(a.modules.load(m).entrypoint)
 			loaded.add(m)
-			if m == B:
+			if m == B or (m == C and case.get('c_imports_a')):
 				loaded.add(A)
 			if last_transpiled is not None and last_transpiled != label:
 				info['after_other'] = True
@@ -146,9 +148,10 @@ def judge(scratch: str, case: dict, hashseeds: tuple = ('0',)) -> tuple[list[tup
 				continue
 			info['steps'] += 1
 			trace.append(f'{kind}({m if kind not in ("main",) else v})')
-			touched = {'__main__'} if kind == 'main' else ({A, B} if kind == 'raw_unload_dep' or (kind == 'unload' and m != C) else {m})
-			if kind in ('load', 'transpile') and m == B and A not in loaded:
-				touched.add(A)  # loading B loads A
+			dep = bool(case.get('c_imports_a'))  # C is a second importer of A
+			touched = {'__main__'} if kind == 'main' else ({A, B} | ({C} if dep else set()) if kind == 'raw_unload_dep' or (kind == 'unload' and (m != C or dep)) else {m})
+			if kind in ('load', 'transpile') and (m == B or (m == C and dep)) and A not in loaded:
+				touched.add(A)  # loading an importer loads A
 			if kind == 'main' and v == 2 and A not in loaded:
 				touched.add(A)
 			really = {mod.path for mod in a.modules.loaded()} & {A, B, C}
@@ -160,7 +163,7 @@ def judge(scratch: str, case: dict, hashseeds: tuple = ('0',)) -> tuple[list[tup
 				if kind == 'load':
 					a.modules.load(m)
 					loaded.add(m)
-					if m == B:
+					if m == B or (m == C and dep):
 						loaded.add(A)
 					if m in unloaded_once:
 						info['reload'] = True
@@ -169,7 +172,7 @@ def judge(scratch: str, case: dict, hashseeds: tuple = ('0',)) -> tuple[list[tup
 					if m in unloaded_once:
 						info['reload'] = True
 				elif kind == 'unload':
-					order = [B, A] if m == A else [m]
+					order = ([B, C, A] if dep else [B, A]) if m == A else [m]  # importers first
 					for x in order:
 						if x in loaded:
 							a.modules.unload(x)
@@ -177,6 +180,10 @@ def judge(scratch: str, case: dict, hashseeds: tuple = ('0',)) -> tuple[list[tup
 							unloaded_once.add(x)
 				elif kind == 'raw_unload_dep':
 					if B in loaded and A in loaded:
+						if dep and C in loaded:
+							a.modules.unload(C)
+							loaded.discard(C)
+							unloaded_once.add(C)
 						a.modules.unload(A)
 						loaded.discard(A)
 						unloaded_once.add(A)
@@ -248,7 +255,7 @@ def shard(ctx: core.Ctx) -> None:
 		ctx.extra['steps'] = ctx.extra.get('steps', 0) + info['steps']
 		nontrivial = (info['reload'] or info['two_mains']) and info['after_other']
 		ctx.case([case['a'], case['b'], case.get('names'), case['ops']], nontrivial, sample={'operations': [f'{o[0]}({o[1] if o[0] != "main" else o[2]})' for o in case['ops']]},
-			labels=['session'] + (['prefix-related-paths'] if case.get('names') and case['names'][0] != 'hma' else []) + [k for k in ('reload', 'two_mains', 'after_other') if info[k]] + (['hashseeds'] if len(seeds) > 1 else []))
+			labels=['session'] + (['sibling-importers'] if case.get('c_imports_a') else []) + (['prefix-related-paths'] if case.get('names') and case['names'][0] != 'hma' else []) + [k for k in ('reload', 'two_mains', 'after_other') if info[k]] + (['hashseeds'] if len(seeds) > 1 else []))
 		for sig, detail in fails:
 			ctx.fail(sig, detail, case)
 
